@@ -12,6 +12,12 @@ schedule labels separated by `,` (`-` = none). `S` starts the request (the worke
          settles after every label except the arming labels PFo/PFc/HG:
          S  R<k>:<code>:<d><t>  X<k>:<reason>  PFo|PFc  HG  PT  GT  DR  CC  TM<code>
          B<k>:<code>:<d><t> (head of a streamed response: the worker forwards it and waits for the body)  E<k> (body ended)
+         TS<code> (TerminateStream on a kept handler of an EARLIER request whose pooled object this request reuses)
+         TR<code>:<k>:<d><t> (TerminateStream with an in-flight response of attempt k landing inside its upstream reset)
+         W (idle time: the model has no clock, the token is dropped)
+trace    the downstream sender calls carry the token of the answer the written part belongs to:
+         dh:<status>:<eos>:<tok>  dd:<eos>:<tok>  dt:<tok>   tok = a<k> (response of attempt k) | l (local reply) | - (none)
+tm       the return values of the TerminateStream calls of the schedule (TM / TS / TR), in order: tm=<0|1>,…|-
 -/
 namespace MosnVerif.Drive.Downstream
 open MosnVerif.Drive MosnVerif.Model.Downstream MosnVerif.Gen.ProxyPhase MosnVerif.Gen.ProxyReason
@@ -66,6 +72,19 @@ def parseLabel (s : String) : Option Label :=
   else if s == "HG" then some .hostsGone
   else if s == "PFo" then some (.poolFail .overflow) else if s == "PFc" then some (.poolFail .connfail)
   else if s.startsWith "TM" then (dropS s 2).toNat?.map Label.terminate
+  else if s.startsWith "TS" then (dropS s 2).toNat?.map (Label.terminateStale 0)
+  else if s.startsWith "TR" then
+    match (dropS s 2).splitOn ":" with
+    | [code, k, dt] => do
+      let code ← code.toNat?
+      let k ← k.toNat?
+      match dt.toList with
+      | [d, t] => do
+        let d ← b01 d.toString
+        let t ← b01 t.toString
+        pure (.terminateRaced code k d t)
+      | _ => none
+    | _ => none
   else if s.startsWith "R" then
     match (dropS s 1).splitOn ":" with
     | [k, code, dt] => do
@@ -101,7 +120,7 @@ def parseLabel (s : String) : Option Label :=
   else none
 
 def parseSched (s : String) : Option (List Label) :=
-  if s == "-" then some [] else (s.splitOn ",").mapM parseLabel
+  if s == "-" then some [] else ((s.splitOn ",").filter (· != "W")).mapM parseLabel
 
 def fuel : Nat := 400
 
@@ -118,10 +137,17 @@ def bs (b : Bool) : String := if b then "1" else "0"
 
 def hexNat (n : Nat) : String := String.ofList (Nat.toDigits 16 n)
 
-def evTok : Ev → String
-  | .dh st e => s!"dh:{st}:{bs e}"
-  | .dd e => s!"dd:{bs e}"
-  | .dt => "dt"
+def tokStr : Tok → String
+  | .none => "-"
+  | .att k => s!"a{k}"
+  | .loc => "l"
+
+/-- the downstream sender calls are rendered with the token of the stored part they write: nothing is stored any more
+once response headers went downstream (theorem `reply_body_own`), so these are the tokens of the final state -/
+def evTok (s : S) : Ev → String
+  | .dh st e => s!"dh:{st}:{bs e}:{tokStr s.hTok}"
+  | .dd e => s!"dd:{bs e}:{tokStr s.dTok}"
+  | .dt => s!"dt:{tokStr s.tTok}"
   | .dr => "dr"
   | .un k => s!"un:{k}"
   | .uf k f => s!"uf:{k}:{match f with | .overflow => "o" | .connfail => "c"}"
@@ -131,10 +157,10 @@ def evTok : Ev → String
   | .ur k => s!"ur:{k}"
   | .log code fl => s!"log:{code}:{hexNat fl}"
 
-def renderTrace (t : List Ev) : String := if t.isEmpty then "-" else joinWith "," (t.map evTok)
+def renderTrace (s : S) : String := if s.trace.isEmpty then "-" else joinWith "," (s.trace.map (evTok s))
 
 def render (s : S) : String :=
-  s!"trace={renderTrace s.trace} ledger={s.requests},{s.retries},{s.upActive},{s.downActive} done={bs s.cleaned}"
+  s!"trace={renderTrace s} ledger={s.requests},{s.retries},{s.upActive},{s.downActive} done={bs s.cleaned}"
 
 structure Case where
   cfg : Cfg
@@ -158,25 +184,49 @@ structure Impl where
   up : Int
   down : Int
   done : Bool
+  tm : List Bool      -- return values of the TerminateStream calls, in schedule order
 
 def parseImpl : List String → Option Impl
-  | [t, l, d] => do
+  | [t, l, d, m] => do
     let t ← if t.startsWith "trace=" then some (dropS t 6) else none
     let l ← if l.startsWith "ledger=" then some (dropS l 7) else none
     let d ← if d.startsWith "done=" then b01 (dropS d 5) else none
+    let m ← if m.startsWith "tm=" then some (dropS m 3) else none
+    let tm ← if m == "-" then some [] else (m.splitOn ",").mapM b01
     match (l.splitOn ",").mapM parseInt? with
-    | some [a, b, c, e] => pure ⟨if t == "-" then [] else t.splitOn ",", a, b, c, e, d⟩
+    | some [a, b, c, e] => pure ⟨if t == "-" then [] else t.splitOn ",", a, b, c, e, d, tm⟩
     | _ => none
   | _ => none
 
+def isTerminate : Label → Bool
+  | .terminate _ => true
+  | .terminateStale _ _ => true
+  | .terminateRaced _ _ _ _ => true
+  | _ => false
+
+/-- the harness' discipline with the return values of the TerminateStream calls: a call was accepted iff it left its
+local reply pending (`directResponse` set by the call) -/
+def runSettledTm (c : Cfg) (s : S) (l : List Label) : S × List Bool :=
+  l.foldl (fun (p : S × List Bool) lb =>
+    let s1 := step c p.1 lb
+    let tm := if isTerminate lb then p.2 ++ [s1.direct && !p.1.direct] else p.2
+    (if arming lb then s1 else settle c fuel s1, tm)) (s, [])
+
 def modelOut (cs : Case) : S := runSettled cs.cfg (init cs.ar cs.aq) cs.sched
+
+def renderTm (l : List Bool) : String := if l.isEmpty then "-" else joinWith "," (l.map bs)
+
+/-- the model's output line: trace with tokens, ledger, done, TerminateStream results -/
+def renderOut (cs : Case) : String :=
+  let r := runSettledTm cs.cfg (init cs.ar cs.aq) cs.sched
+  s!"{render r.1} tm={renderTm r.2}"
 
 /-- read an implementation trace token back into an event (`none` = not a token of the protocol) -/
 def parseEv (t : String) : Option Ev :=
   match t.splitOn ":" with
-  | ["dh", st, e] => do pure (.dh (← st.toNat?) (← b01 e))
-  | ["dd", e] => do pure (.dd (← b01 e))
-  | ["dt"] => some .dt
+  | ["dh", st, e, _] => do pure (.dh (← st.toNat?) (← b01 e))
+  | ["dd", e, _] => do pure (.dd (← b01 e))
+  | ["dt", _] => some .dt
   | ["dr"] => some .dr
   | ["un", k] => do pure (.un (← k.toNat?))
   | ["uf", k, f] => do
@@ -192,6 +242,20 @@ def parseEv (t : String) : Option Ev :=
   | _ => none
 
 def implTrace (i : Impl) : Option (List Ev) := i.trace.mapM parseEv
+
+/-- the answer tokens of the downstream sender calls of an implementation trace, in order (headers, data, trailers) -/
+def implDownToks (i : Impl) : List (String × String) :=
+  i.trace.filterMap (fun t => match t.splitOn ":" with
+    | ["dh", _, _, k] => some ("dh", k)
+    | ["dd", _, k] => some ("dd", k)
+    | ["dt", k] => some ("dt", k)
+    | _ => none)
+
+/-- declarative: every data / trailers call carries the token of the headers call before it; headers carry a token -/
+def ownOk (l : List (String × String)) : Bool :=
+  match l with
+  | [] => true
+  | (k, h) :: r => k == "dh" && h != "-" && r.all (fun p => p.1 != "dh" && p.2 == h)
 
 def isClientGone : Label → Bool
   | .downReset _ => true
